@@ -7,7 +7,9 @@
 namespace c01 {
 
 struct Params {
-    char mode = 'A';     // 'A' closure over a finite universe, 'B' depth-bounded from bulk_load(n) seeds
+    char mode = 'A';     // 'A' closure over a finite universe, 'B' depth-bounded from bulk_load(n) seeds,
+                         // 'S' closure over tree SHAPES: keys are abstracted to their rank, at most N elements
+    int N = 24;          // S: size cap
     int K = 8;           // A: key universe 0..K-1
     int M = 1;           // multiplicity cap per key (multi containers)
     int L = -1;          // A: bulk_load of every sorted sequence of length <= L (-1: no bound)
@@ -20,6 +22,7 @@ struct Params {
     long cap = 5000000;  // state cap (safety)
     std::string str() const {
         if (mode == 'A') return vh::fmt("A.K%d.M%d.L%d.t%d.c%d.v%d", K, M, L, two, cv, vb);
+        if (mode == 'S') return vh::fmt("S.N%d", N);
         return vh::fmt("B.a%d.z%d.R%d.d%d.M%d.t%d.c%d.v%d", n0, n1, R, d, M, two, cv, vb);
     }
     static Params parse(const std::string& s) {
@@ -35,6 +38,8 @@ struct Params {
             switch (t[0]) {
             case 'A': p.mode = 'A'; break;
             case 'B': p.mode = 'B'; break;
+            case 'S': p.mode = 'S'; break;
+            case 'N': p.N = v; break;
             case 'K': p.K = v; break;
             case 'M': p.M = v; break;
             case 'L': p.L = v; break;
@@ -104,6 +109,7 @@ struct System {
 
     explicit System(const Params& p) : P(p) {
         if (!is_multi) P.M = 1;
+        if (P.mode == 'S' && is_multi) vh::out_line("ERROR mode S (shape closure) is defined for the unique-key containers only");
         if (P.mode == 'A') {
             std::vector<int> cur;
             enum_bulk(0, cur);
@@ -205,6 +211,58 @@ struct System {
         return (int)(std::upper_bound(mv.begin(), mv.end(), k, [](int q, const KV& e) { return ICmp()(q, e.first); }) - mv.begin());
     }
     int key_at(int i) const { return P.mode == 'A' ? i : 2 * i + 1; }
+
+    // ---- mode S (shape closure): op arguments are RANKS in the container's order; the actual key of an insertion into
+    // gap g is a fresh integer between the neighbours (any such key behaves the same: the tree only compares keys)
+    static const int S_STEP = 1 << 23;
+    static std::vector<int> keys_in_order(const Model& m) {
+        std::vector<int> ks;
+        ks.reserve(m.size());
+        for (auto& x : m) ks.push_back(mkv_of(x).first);
+        return ks;
+    }
+    static int s_gap_key(const Model& m, int g, bool* ok) {
+        *ok = true;
+        int n = (int)m.size();
+        if (n == 0) return 0;
+        std::vector<int> ks = keys_in_order(m);
+        int dir = ICmp()(0, 1) ? 1 : -1;
+        if (g <= 0) return ks[0] - dir * S_STEP;
+        if (g >= n) return ks[n - 1] + dir * S_STEP;
+        long a = ks[g - 1], b = ks[g];
+        if (b - a < 2 && a - b < 2) {
+            *ok = false;
+            return 0;
+        }
+        return (int)(a + (b - a) / 2);
+    }
+    static int s_key_at_rank(const Model& m, int p) {
+        auto it = m.begin();
+        std::advance(it, p);
+        return mkv_of(*it).first;
+    }
+    // keys worth querying in a state of mode S: every stored key and its two integer neighbours, plus far ends
+    static std::vector<int> s_query_keys(const Model& m) {
+        std::vector<int> q;
+        for (auto& x : m) {
+            int k = mkv_of(x).first;
+            q.push_back(k - 1);
+            q.push_back(k);
+            q.push_back(k + 1);
+        }
+        q.push_back(-(1 << 29));
+        q.push_back(1 << 29);
+        std::sort(q.begin(), q.end());
+        q.erase(std::unique(q.begin(), q.end()), q.end());
+        return q;
+    }
+    // query keys of a state: A: -1..K, B: -1..max+2, S: see above
+    std::vector<int> query_keys(const Model& m) const {
+        if (P.mode == 'S') return s_query_keys(m);
+        std::vector<int> q;
+        for (int k = -1; k <= universe(m); ++k) q.push_back(k);
+        return q;
+    }
     int temp_nkeys() const { return P.mode == 'A' ? P.K : std::min(P.n1 > 0 ? P.n1 : 1, 2 * leaf_slots + 2); }
 
     // contents of the fixed temporary trees used by assign/swap ops, in key order
@@ -367,6 +425,24 @@ struct System {
         int n = (int)m.size();
         int U = universe(m);
         bool A = P.mode == 'A';
+        if (P.mode == 'S') {
+            // ranks instead of keys; the shape abstraction is only sound for distinct keys, so no duplicate is ever inserted
+            for (int g = 0; g <= n && n < P.N; ++g) {
+                bool ok;
+                s_gap_key(m, g, &ok);
+                if (!ok) {
+                    vh::stat_add("shape_gap_exhausted");
+                    continue;
+                }
+                r.push_back(enc(OP_INS, g));
+                if ((g + n) % 3 == 0) r.push_back(enc(OP_INS_HINT, g));
+            }
+            for (int p = 0; p < n; ++p) r.push_back(enc(OP_ERASE_IT, p));
+            for (int p = 0; p < n; ++p) r.push_back(enc((p + n) % 2 ? OP_ERASE : OP_ERASE_ONE, p));
+            if (n == 0)
+                for (int b = 1; b <= P.N; ++b) r.push_back(enc(OP_BULKN, b));
+            return r;
+        }
         auto can_ins = [&](int k, int extra) {
             if (is_multi) return (int)m.count(k) + extra <= P.M;
             return A ? true : m.count(k) == 0;  // B: re-inserting a present key is exercised in observe() on a copy
@@ -516,7 +592,7 @@ struct System {
             check_contents(*s.a, s.ma, "a");
             if (s.b) check_contents(*s.b, s.mb, "b");
         }
-        s.cache = wa.dump;
+        s.cache = P.mode == 'S' ? wa.shape : wa.dump;
         if (s.b) s.cache += " || " + wb.dump;
         s.cache_ok = true;
         return wa;
@@ -525,7 +601,8 @@ struct System {
     std::string canon(const State& s) {
         bind(s);
         if (s.cache_ok) return s.cache;
-        std::string c = walk(*s.a).dump;
+        Walk w0 = walk(*s.a);
+        std::string c = P.mode == 'S' ? w0.shape : w0.dump;
         if (s.b) c += " || " + walk(*s.b).dump;
         return c;
     }
@@ -551,6 +628,12 @@ struct System {
         int code = op >> 20, arg = (int)(op & 0xfffff);
         Tree& a = *s.a;
         Model& m = s.ma;
+        if (P.mode == 'S') {
+            // rank -> key (see s_gap_key)
+            bool ok = true;
+            if (code == OP_INS || code == OP_INS_HINT) arg = s_gap_key(m, arg, &ok);
+            else if (code == OP_ERASE || code == OP_ERASE_ONE) arg = s_key_at_rank(m, arg);
+        }
         // returned iterator to be checked against the model after the structure walk
         bool have_it = false;
         const void* rleaf = nullptr;
@@ -641,7 +724,7 @@ struct System {
             if (code == OP_BULK) keys = bulk[arg];
             else {
                 int R = is_multi ? std::max(1, P.R) : 1;
-                for (int i = 0; i < arg; ++i) keys.push_back(2 * (i / R) + 1);
+                for (int i = 0; i < arg; ++i) keys.push_back(P.mode == 'S' ? i * S_STEP : 2 * (i / R) + 1);
                 if (TC::greater) std::reverse(keys.begin(), keys.end());
             }
             std::vector<value_type> vs;
@@ -759,6 +842,12 @@ struct System {
     void observe(State& s) {
         bind(s);
         vh::at_op((cname() + ".observe").c_str());
+        if (const char* df = getenv("C01_DUMP_STATES")) {  // debugging aid: append every new canonical state to a file
+            if (FILE* f = fopen(df, "a")) {
+                fprintf(f, "%s\n", canon(s).c_str());
+                fclose(f);
+            }
+        }
         Observer<TC>::run(*this, s);
     }
 };
